@@ -5,7 +5,7 @@ from trkgen import *
 import importlib
 
 ID = "C02"
-THEOREM_MODULES = ["SimVerif.Props.C02", "SimVerif.Props.C02b", "SimVerif.Tie.Inter", "SimVerif.Tie.Kalman", "SimVerif.Tie.SMetric", "SimVerif.Tie.SortVoting", "SimVerif.Props.C02s", "SimVerif.Tie.Optimize"]
+THEOREM_MODULES = ["SimVerif.Props.C02", "SimVerif.Props.C02b", "SimVerif.Tie.Inter", "SimVerif.Tie.Kalman", "SimVerif.Tie.SMetric", "SimVerif.Tie.SortVoting", "SimVerif.Props.C02s", "SimVerif.Tie.Optimize", "SimVerif.Tie.VoteParams"]
 THEOREM_MODULE = "SimVerif.Props.C02"
 NONTRIVIAL_FLAGS = {"gated-in", "below-gate", "confidence-raised", "beyond-chi2-gate", "greedy-suboptimal", "competition", "multi", "at-threshold", "too-far"}
 RULE = ("(a) `smetric`: SortMetric through Track::distances on a track built from 1..6 observations and a one-observation candidate — overlapping / near / far pairs, confidences below and above the configured minimum, default and non-default Kalman position / velocity weights of the track (the Mahalanobis gate must be computed with the track's own filter) "
